@@ -111,5 +111,13 @@ Definition is_slider (v : pvalue) : bool := match v with VSlider _ => true | _ =
 Definition is_dict (v : pvalue) : bool := match v with VDictType _ | VDictNoType _ => true | _ => false end.
 Definition has_type (v : pvalue) : bool := match v with VDictType _ => true | _ => false end.
 Definition b2z (b : bool) : Z := if b then 1 else 0.
+(* the keys of several portrayal dicts together: d.setdefault(key, value) over all rows, first value seen kept *)
+Definition oflag {A : Type} (o : option A) : Z := match o with Some _ => 1 | None => 0 end.
+Definition osetdefault {A : Type} (acc new : option A) : option A := match acc with Some x => Some x | None => new end.
+Definition pd_union (acc d : pdict) : pdict :=
+  {| pd_size := osetdefault (pd_size acc) (pd_size d); pd_color := osetdefault (pd_color acc) (pd_color d);
+     pd_marker := osetdefault (pd_marker acc) (pd_marker d); pd_zorder := osetdefault (pd_zorder acc) (pd_zorder d) |}.
+Definition rows_union (rows : list arow) : pdict := fold_left pd_union (map ar_d rows) pd_empty.
+Definition rows_first (rows : list arow) : pdict := match rows with r :: _ => ar_d r | [] => pd_empty end.
 (* for x in xs: body(x) raising with code body(x) <> 0 : the code of the first raise, 0 if none *)
 Definition first_raise {A : Type} (body : A -> Z) (xs : list A) : Z := first_nonzero (map body xs).
